@@ -7,3 +7,7 @@ import FontcProofs.VarModelTri
 import FontcProofs.SfntBasic
 import FontcProofs.SfntLayout
 import FontcProofs.SfntMain
+import FontcProofs.PathsStf
+import FontcProofs.PathsKern
+import FontcProofs.PathsTarget
+import FontcProofs.PathsPersist
